@@ -5,7 +5,7 @@ import vf
 from checks import offset_common as oc
 
 META = dict(
-    text='Coq theorems on faithful models of the offsetter (plan of member values per path incl. refutation of locality, '
+    text='Coq theorems on faithful models of the offsetter (locality of the plan of member values per path, '
          'index schedule of OffsetOpenPath in bounds for len>=2 and refuted for len=0, normal reversal, cap geometry over the reals, '
          'single-point shapes) + exact binary64 model of the raw stroke curve tied bit-for-bit to DoGroupOffset + public API '
          'validated against a Coq-defined stroke specification with exact rational distance tests',
@@ -13,7 +13,7 @@ META = dict(
          'executed correspondence (observer callback for member values, private-access call of DoGroupOffset for raw curves, bit exact). '
          'That the clean-up union of the raw curves is the stroke region is validated (sampled points, exact classification), not proved.',
     technique='Coq 8.16 proofs (Reals/Coquelicot, PrimFloat) + extracted OCaml oracle + differential harness; alone-vs-together exact '
-              'comparison exposes state carried between paths; ASan/UBSan run for the empty-path access',
+              'comparison exposes state carried between paths; ASan/UBSan run on 1-, 2- and 3-point paths (the empty-path access the model predicts is recorded for C10)',
     category='proof')
 
 QUICK = dict(spec=2600, sign=500, rev=450, local=500, plan_rand=900, raw=900)
@@ -141,11 +141,11 @@ def sign_symmetry(ctx, T, cases):
         a, b = oc.parse_exe(outs[2 * i]), oc.parse_exe(outs[2 * i + 1])
         ctx.count('evaluations', 1)
         if not (a['ok'] and b['ok']):
-            ctx.violation('offset.crash-or-exception', 'C07 sign symmetry: harness answered %s / %s' % (outs[2 * i][:200], outs[2 * i + 1][:200]),
+            oc.viol(ctx, 'offset.crash-or-exception', 'C07 sign symmetry: harness answered %s / %s' % (outs[2 * i][:200], outs[2 * i + 1][:200]),
                           replay=dict(kind='c07-sign', case=c))
         elif oc.canon(a['sol']) != oc.canon(b['sol']):
             g = c['groups'][0]
-            ctx.violation('offset.c07.sign-asymmetry.%s-end' % oc.ET[g['et']].lower(),
+            oc.viol(ctx, 'offset.c07.sign-asymmetry.%s-end' % oc.ET[g['et']].lower(),
                           'C07: result for delta=%s differs from the result for delta=%s (join %s end %s)' % (c['delta'], -c['delta'], oc.JT[g['jt']], oc.ET[g['et']]),
                           replay=dict(kind='c07-sign', case=c))
 
@@ -160,7 +160,7 @@ def direction_independence(ctx, T, rng, cases):
     for i, c in enumerate(cases):
         a, b = oc.parse_exe(outs[2 * i]), oc.parse_exe(outs[2 * i + 1])
         if not (a['ok'] and b['ok']):
-            ctx.violation('offset.crash-or-exception', 'C07 direction: harness answered %s / %s' % (outs[2 * i][:200], outs[2 * i + 1][:200]),
+            oc.viol(ctx, 'offset.crash-or-exception', 'C07 direction: harness answered %s / %s' % (outs[2 * i][:200], outs[2 * i + 1][:200]),
                           replay=dict(kind='c07-dir', case=c))
             continue
         g = c['groups'][0]
@@ -179,7 +179,7 @@ def direction_independence(ctx, T, rng, cases):
         for q, x, y, f in zip(pts, wa, wb, far):
             if x != y and f == '1':
                 g = c['groups'][0]
-                ctx.violation('offset.c07.direction-dependence.%s-end' % oc.ET[g['et']].lower(),
+                oc.viol(ctx, 'offset.c07.direction-dependence.%s-end' % oc.ET[g['et']].lower(),
                               'C07: reversing the direction of the input path changes the region at (%s, %s): winding %s vs %s, farther than the '
                               'tolerance from the boundary (delta %s join %s end %s)' % (q[0] / 2, q[1] / 2, x, y, c['delta'], oc.JT[g['jt']], oc.ET[g['et']]),
                               replay=dict(kind='c07-dir', case=c, point2=list(q)))
@@ -199,22 +199,35 @@ def c07_locality_key(case):
 
 def empty_path_ub(ctx, T):
     """DESIGN section 9 item 4: an empty path in a group with an open end type reaches path[0] / norms[0].
-    Run under ASan+UBSan, one process per case."""
+    Run under ASan+UBSan, one process per case.  An EMPTY path is not in C07's quantifier ("all open polylines ..., 1-point
+    and 2-point paths"): the undefined behaviour is a defect under C10 (robustness, "for every input: ... empty ... paths"),
+    not a violation of C07.  It is therefore recorded as an observation (evidence: coverage.notes and
+    coverage.empty_path_ub_observed) and reported to the owner of C10; it replays C07_accesses_in_bounds_refuted /
+    C07_joined_accesses_in_bounds_refuted (the model's index schedule leaves the bounds for len = 0) on the real code.
+    Only a sanitizer report on a NON-empty path is a finding of this check."""
     if 'asan' not in T.exe:
         return
+    seen = []
     for et in (1, 2, 3, 4):
         c = dict(ml=2.0, at=0.0, pc=0, rev=0, delta=10.0, groups=[dict(jt=0, et=et, paths=[[], [(0, 0), (100, 0), (100, 100)]])])
         o = T.H1(oc.exe_line(c, 'RUN'), 'asan')
         ctx.count('evaluations', 1)
         if o.startswith('CRASH'):
-            ctx.violation('offset.empty-path-open-endtype-ub',
-                          'C07/C10: an empty path in an EndType::%s group makes DoGroupOffset access path[0]/norms[0] of an empty vector: %s'
-                          % (oc.ET[et], o[:400]), replay=dict(kind='c07-asan', case=c))
+            seen.append(oc.ET[et])
+            ctx.sample(dict(kind='c07-asan', case=c, report=o[:300]), limit=1, key='empty_path_ub_sample')
+    ctx.cov['empty_path_ub_observed'] = seen
+    if seen:
+        ctx.notes.append('outside C07 (belongs to C10): an empty path in an EndType::%s group makes DoGroupOffset read path[0]/norms[0] of an '
+                         'empty vector (UBSan: reference binding to null pointer), as the model predicts (C07_accesses_in_bounds_refuted)'
+                         % '/'.join(seen))
     # control: the same without the empty path must be clean
-    c = dict(ml=2.0, at=0.0, pc=0, rev=0, delta=10.0, groups=[dict(jt=0, et=2, paths=[[(0, 0), (100, 0), (100, 100)]])])
-    o = T.H1(oc.exe_line(c, 'RUN'), 'asan')
-    if o.startswith('CRASH'):
-        ctx.violation('offset.sanitizer-report', 'C07: sanitizer report on a plain open path: %s' % o[:400], replay=dict(kind='c07-asan', case=c))
+    for et in (1, 2, 3, 4):
+        c = dict(ml=2.0, at=0.0, pc=0, rev=0, delta=10.0, groups=[dict(jt=0, et=et, paths=[[(5, 5)], [(0, 0), (90, 30)], [(0, 0), (100, 0), (100, 100)]])])
+        o = T.H1(oc.exe_line(c, 'RUN'), 'asan')
+        ctx.count('evaluations', 1)
+        if o.startswith('CRASH'):
+            oc.viol(ctx, 'offset.sanitizer-report', 'C07: sanitizer report on one-, two- and three-point open paths (end type %s): %s' % (oc.ET[et], o[:400]),
+                          replay=dict(kind='c07-asan', case=c))
 
 
 # ----------------------------------------------------------------------------- corpus
@@ -273,7 +286,7 @@ def run(ctx):
     try:
         T = oc.Tools(ctx, variants=('plain', 'asan'))
     except vf.BuildFailure as e:
-        ctx.violation('tie-break:cx_offset-build', 'the offset harness no longer builds against the tree (a modelled member or function changed): %s' % str(e)[-600:],
+        oc.viol(ctx, 'tie-break:cx_offset-build', 'the offset harness no longer builds against the tree (a modelled member or function changed): %s' % str(e)[-600:],
                       replay=dict(kind='build'), nofail=True)
         return
     nv0 = len(ctx.violations)
@@ -312,7 +325,7 @@ def run(ctx):
     # locality: alone vs together (exact), mixtures of far-apart paths and groups
     r3 = rng.fork(3)
     mix = [gen_mixture(r3, allow_polygon=r3.chance(1, 4)) for _ in range(B['local'])]
-    # the witness of C07_plan_local_refuted, replayed on the real code
+    # the witness that refuted C07_plan_local before offset-endtype-leak.patch, replayed on the real code
     mix.append(dict(ml=2.0, at=0.0, pc=0, rev=0, delta=10.0, groups=[dict(jt=0, et=1, paths=[slot_path(1, 2, 0), slot_path(1, 3, 1)])]))
     nb = oc.locality_eval(ctx, T, mix, 'C07 locality', 'c07-local', key_of=c07_locality_key)
     ctx.count('locality_cases', len(mix)); ctx.count('locality_differences', nb)
@@ -338,7 +351,7 @@ def run(ctx):
     if not pr['ok'] or ties_broken:
         search(ctx, T, rng.fork(9), 4000 if ctx.quick else 40000)
         if not pr['ok'] and not any(not v['nofail'] for v in ctx.violations):
-            ctx.violation('proof-break:Properties_C07', 'Properties_C07 no longer builds: %s' % '; '.join(pr['failed'])[:800],
+            oc.viol(ctx, 'proof-break:Properties_C07', 'Properties_C07 no longer builds: %s' % '; '.join(pr['failed'])[:800],
                           replay=dict(kind='proof', failed=pr['failed']), nofail=True)
 
     ctx.cov['distinct_nontrivial'] = len(nontriv)
@@ -364,7 +377,7 @@ def replay(ctx, path):
     if kind in ('proof', 'build'):
         pr = vf.coq_props(ctx, 'C07')
         if not pr['ok']:
-            ctx.violation('proof-break:Properties_C07', '; '.join(pr['failed'])[:800], replay=rp, nofail=True)
+            oc.viol(ctx, 'proof-break:Properties_C07', '; '.join(pr['failed'])[:800], replay=rp, nofail=True)
         return
     if kind == 'fop':
         oc.float_selftest(ctx, T)
